@@ -1,20 +1,25 @@
 (* C07 — syntax of the programs the property quantifies over, the observable state, and M: an executable
-   model of what slip's Go code DOES with them (including its defects).
+   model of what slip's Go code DOES with them.
 
    In the Go code a non-local exit is an ordinary object: (return-from b v) evaluates to a
-   *slip.ReturnResult{Tag,Result}, (go t) to a *cl.GoTo{Tag}; every form that evaluates a body has to look
+   *slip.ReturnResult{Tag,Result}, (go t) to a *slip.GoTo{Tag}; every form that evaluates a body has to look
    at each value and pass such a marker up itself.  Errors are Go panics.  M therefore has only
    "value | panic" results, the markers are VALUES (VRetM, VGoM), and each form below is a transcription
-   of the body loop of its Call method:
+   of the body loop of its Call method, as it is after repo_fixes/C07-1 .. C07-21 (every loop now has the
+   test of let.go: "switch result.(type) { case *slip.ReturnResult, *GoTo: return result }"):
 
-     pkg/cl/progn.go, function.go (Function.Eval: ordinary arguments)   -> m_args
-     pkg/cl/when.go, cond.go, ignore-errors.go, pkg/gi/recover.go,
-       pkg/gi/with-mutex-lock.go, pkg/cl/with-open-file.go               -> m_seq never
-     pkg/cl/let.go + util.go processBinding                              -> m_args, m_seq is_marker
-     pkg/cl/block.go, lambda.go BoundCall                                -> m_seq is_ret
-     pkg/cl/tagbody.go, dolist.go, dotimes.go, do.go                     -> m_items
-     pkg/cl/return-from.go, return.go, scope.go InBlock, pkg/cl/go.go    -> in_block, tb flag
-     pkg/cl/unwind-protect.go (defer), trace.go normalAfter (class kept) -> UnwindProtect case
+     pkg/cl/progn.go, when.go, unless.go, if.go, cond.go, ignore-errors.go, let.go, with-open-file.go,
+       pkg/gi/recover.go, with-mutex-lock.go, block.go, lambda.go BoundCall,
+       unwind-protect.go (cleanup forms), do.go (result forms)            -> m_seq
+     function.go Function.Eval (ordinary arguments), util.go processBinding (let inits) -> m_args
+     the tests of when / cond, the value form of return-from / return     -> "if is_marker v then"
+     pkg/cl/tagbody.go, dolist.go, dotimes.go, do.go (statement loops)    -> m_pass, m_tagbody, m_iter
+     pkg/cl/return-from.go, return.go, scope.go InBlock, pkg/cl/go.go     -> in_block, tb flag
+     pkg/cl/unwind-protect.go (defer), trace.go normalAfter (class kept)  -> UnwindProtect case
+
+   What is left of the difference to the reference S is the LOOKUP: InBlock walks the calling scopes and
+   Scope.TagBody is a flag inherited by every scope made while a tagbody is active, so a return-from / go
+   is accepted whenever a block of that name / any tagbody is somewhere on the call chain.
 
    No proofs in this file. *)
 From Coq Require Export List Bool Arith ZArith NArith Lia.
@@ -77,6 +82,8 @@ Inductive form :=
 | Do (n : nat) (body : list item) (res : list form)     (* (do ((i 0 (+ i 1))) ((= i n) res...) body...) *)
 | Lam (body : list form)                       (* (funcall (lambda () body...)) *)
 | CallU (i : nat)                              (* (fi): call of the i-th user function, no arguments *)
+| Unless (c : form) (body : list form)         (* unless.go: the twin of when.go *)
+| If (c : form) (a b : form)                   (* (if c a b) *)
 with item :=
 | ITag (t : N)
 | IForm (f : form).
@@ -115,13 +122,24 @@ Definition init_state (vs : list Z) : state := {| trace := []; vars := vs; locks
 Definition NVARS : nat := 2.      (* the global counters v0, v1 *)
 Definition lit_val (l : lit) : value := match l with LNil => VNil | LT => VT | LInt z => VInt z end.
 Definition is_nil (v : value) : bool := match v with VNil => true | _ => false end.
-Definition is_ret (v : value) : bool := match v with VRetM _ _ => true | _ => false end.
 Definition is_marker (v : value) : bool := match v with VRetM _ _ | VGoM _ => true | _ => false end.
-Definition never (v : value) : bool := false.
 (* "if vs, ok := v.(Values); ok { v = vs[0] }" in Function.Eval *)
 Definition prim (v : value) : value := match v with VNilVals => VNil | _ => v end.
 (* an empty slip.List is turned into nil by EvalArg / printed as nil *)
 Definition mk_list (vs : list value) : value := match vs with [] => VNil | _ => VList vs end.
+
+(* ---- tags of a statement list ------------------------------------------------------------------- *)
+Definition memN (t : N) (l : list N) : bool := existsb (N.eqb t) l.
+Fixpoint tags_of (items : list item) : list N :=
+  match items with [] => [] | ITag t :: r => t :: tags_of r | IForm _ :: r => tags_of r end.
+(* the statements after the first occurrence of tag t:
+   "for i = 0; i < len(args); i++ { if args[i] == tr.Tag { break } }" and the i++ of the enclosing loop *)
+Fixpoint after_tag (t : N) (items : list item) : list item :=
+  match items with
+  | [] => []
+  | ITag t' :: r => if N.eqb t' t then r else after_tag t r
+  | IForm _ :: r => after_tag t r
+  end.
 
 (* ---- M ----------------------------------------------------------------------------------------- *)
 Inductive mres := MVal (v : value) | MErr (c : cls) | MHang | MOOF.
@@ -129,93 +147,105 @@ Inductive mres := MVal (v : value) | MErr (c : cls) | MHang | MOOF.
 (* a scope of the chain InBlock walks: (Scope.Block, Scope.Name) *)
 Definition scope := (bool * N)%type.
 Definition in_block (sc : list scope) (t : N) : bool := existsb (fun s => fst s && N.eqb (snd s) t) sc.
-Definition head_block (sc : list scope) : bool := match sc with (b, _) :: _ => b | [] => false end.
+
+(* what a statement loop does with one pass over its statements *)
+Inductive mstep := MDone | MOut (r : mres) | MJump (t : N).
 
 Section Combinators.
   Variable ev : form -> state -> mres * state.
 
-  (* for i := range forms { result = EvalArg(...) [; if stop(result) { return result }] } *)
-  Fixpoint m_seq (stop : value -> bool) (fs : list form) (last : value) (st : state) : mres * state :=
+  (* for i := range forms { result = EvalArg(...); switch result.(type) { case *ReturnResult, *GoTo: return result } } *)
+  Fixpoint m_seq (fs : list form) (last : value) (st : state) : mres * state :=
     match fs with
     | [] => (MVal last, st)
     | f :: r =>
         match ev f st with
-        | (MVal v, st1) => if stop v then (MVal v, st1) else m_seq stop r v st1
+        | (MVal v, st1) => if is_marker v then (MVal v, st1) else m_seq r v st1
         | (o, st1) => (o, st1)
         end
     end.
 
-  (* Function.Eval: every argument is evaluated, left to right, whatever the values are *)
+  (* Function.Eval: the arguments are evaluated left to right; one that is a marker ends the call and is
+     returned (repo_fixes/C07-19); of several values the first is the argument *)
   Fixpoint m_args (fs : list form) (acc : list value) (st : state) : (mres + list value) * state :=
     match fs with
     | [] => (inr (rev acc), st)
     | f :: r =>
         match ev f st with
-        | (MVal v, st1) => m_args r (prim v :: acc) st1
+        | (MVal v, st1) => if is_marker v then (inl (MVal v), st1) else m_args r (prim v :: acc) st1
         | (o, st1) => (inl o, st1)
         end
     end.
 
+  (* cond.go: the first value of the test decides and is what a clause without forms returns; a marker is
+     returned at once (repo_fixes/C07-18), as is a marker in the clause body (C07-2) *)
   Fixpoint m_cond (cs : list (form * list form)) (st : state) : mres * state :=
     match cs with
     | [] => (MVal VNil, st)
     | (c, b) :: r =>
         match ev c st with
-        | (MVal v, st1) => if is_nil (prim v) then m_cond r st1 else m_seq never b (prim v) st1   (* the first value of the test decides and is what a clause without forms returns (0170ebc, repo_fixes/C01-19) *)
+        | (MVal v, st1) =>
+            if is_nil (prim v) then m_cond r st1
+            else if is_marker v then (MVal v, st1)
+            else m_seq b (prim v) st1
         | (o, st1) => (o, st1)
         end
     end.
 
-  (* The statement loop shared by tagbody.go, dolist.go, dotimes.go, do.go.
-     skip = Some t: the inner "for i++; i < len(args); i++ { if args[i] == gt.Tag { break } }" is running.
-     evtags: tagbody evaluates every element with EvalArg, so a symbol tag is an unbound variable; the loops
-     only evaluate lists.  onret: what the loop does with a return marker (None = nothing, go on).
-     Result: Some r = the form returns r at once; None = the statements are exhausted. *)
-  Fixpoint m_items (evtags : bool) (onret : N -> value -> option value) (skip : option N)
-           (items : list item) (st : state) : option mres * state :=
+  (* The statement loop shared by tagbody.go, dolist.go, dotimes.go, do.go: only lists are evaluated (tags
+     are skipped); a return marker is handed to onret and returned; the tag of a go marker is searched in
+     the whole body (own = its tags): found, the loop goes on after it (MJump), otherwise the marker is
+     returned for an outer tagbody. *)
+  Fixpoint m_pass (onret : N -> value -> value) (own : list N) (items : list item) (st : state) : mstep * state :=
     match items with
-    | [] => (None, st)
-    | ITag t :: r =>
-        match skip with
-        | Some t' => if N.eqb t t' then m_items evtags onret None r st else m_items evtags onret skip r st
-        | None => if evtags && sym_tag t then (Some (MErr CUnbound), st) else m_items evtags onret None r st
-        end
+    | [] => (MDone, st)
+    | ITag _ :: r => m_pass onret own r st
     | IForm f :: r =>
-        match skip with
-        | Some _ => m_items evtags onret skip r st
-        | None =>
-            match ev f st with
-            | (MVal (VGoM t), st1) => m_items evtags onret (Some t) r st1
-            | (MVal (VRetM t v), st1) =>
-                match onret t v with
-                | Some x => (Some (MVal x), st1)
-                | None => m_items evtags onret None r st1
-                end
-            | (MVal _, st1) => m_items evtags onret None r st1
-            | (o, st1) => (Some o, st1)
-            end
+        match ev f st with
+        | (MVal (VGoM t), st1) => if memN t own then (MJump t, st1) else (MOut (MVal (VGoM t)), st1)
+        | (MVal (VRetM t v), st1) => (MOut (MVal (onret t v)), st1)
+        | (MVal _, st1) => m_pass onret own r st1
+        | (o, st1) => (MOut o, st1)
         end
     end.
 
-  Fixpoint m_iter (onret : N -> value -> option value) (n : nat) (body : list item) (st : state) : option mres * state :=
+  (* k bounds the number of jumps (a backward go can loop for ever).
+     Result: Some r = the form returns r at once; None = the statements are exhausted. *)
+  Fixpoint m_tagbody (onret : N -> value -> value) (all : list item) (k : nat) (items : list item) (st : state)
+           {struct k} : option mres * state :=
+    match m_pass onret (tags_of all) items st with
+    | (MDone, st1) => (None, st1)
+    | (MOut r, st1) => (Some r, st1)
+    | (MJump t, st1) =>
+        match k with
+        | O => (Some MOOF, st1)
+        | S k' => m_tagbody onret all k' (after_tag t all) st1
+        end
+    end.
+
+  Fixpoint m_iter (onret : N -> value -> value) (k : nat) (n : nat) (body : list item) (st : state) : option mres * state :=
     match n with
     | O => (None, st)
     | S n' =>
-        match m_items false onret None body st with
+        match m_tagbody onret body k body st with
         | (Some r, st1) => (Some r, st1)
-        | (None, st1) => m_iter onret n' body st1
+        | (None, st1) => m_iter onret k n' body st1
         end
     end.
 End Combinators.
 
-(* dolist.go / dotimes.go: "if tr.Tag == nil { return tr.Result }; return tr" *)
-Definition onret_loop (t : N) (v : value) : option value := Some (if N.eqb t 0 then v else VRetM t v).
-(* do.go: "if tr.Tag == nil { return tr.Result }; if s.Block { return tr }" — s is the CALLING scope *)
-Definition onret_do (sblock : bool) (t : N) (v : value) : option value :=
-  if N.eqb t 0 then Some v else if sblock then Some (VRetM t v) else None.
-Definition onret_none (t : N) (v : value) : option value := None.
-
-Definition last_val (vs : list value) : value := last vs VNil.
+(* tagbody.go: "case *slip.ReturnResult: return tr" *)
+Definition onret_pass (t : N) (v : value) : value := VRetM t v.
+(* dolist.go / dotimes.go / do.go: "if tr.Tag == nil { return tr.Result }; return tr" *)
+Definition onret_loop (t : N) (v : value) : value := if N.eqb t 0 then v else VRetM t v.
+(* block.go "if ns.Name == tr.Tag { return tr.Result }; return tr", lambda.go BoundCall "if rr.Tag == s.Name
+   { result = rr.Result }", and the same test applied to the value of the result form(s) of a loop
+   (repo_fixes/C07-14, C07-15) *)
+Definition m_catch (t : N) (r : mres * state) : mres * state :=
+  match r with
+  | (MVal (VRetM t' v), st) => if N.eqb t t' then (MVal v, st) else r
+  | _ => r
+  end.
 
 Section M.
   Variable defs : list (list form).
@@ -245,42 +275,38 @@ Section M.
           | (inr vs, st1) => (MVal (mk_list vs), st1)
           | (inl o, st1) => (o, st1)
           end
-      | Progn body =>                       (* progn.go (after repo_fixes/C01-10): "for i := range args { result = EvalArg(..) }":
-                                               every form is evaluated, markers of forms that are not the last are dropped,
-                                               the last object is returned as it is (every value) *)
-          m_seq (ev sc tb) never body VNil st
-      | When c body =>
+      | Progn body => m_seq (ev sc tb) body VNil st
+      | When c body =>                       (* when.go: a marker in the test is returned (C07-18); otherwise firstValue(..) decides *)
           match ev sc tb c st with
-          | (MVal v, st1) => if is_nil (prim v) then (MVal VNil, st1) else m_seq (ev sc tb) never body VNil st1   (* when.go tests firstValue(..) since repo_fixes/C01-19 *)
+          | (MVal v, st1) =>
+              if is_marker v then (MVal v, st1)
+              else if is_nil (prim v) then (MVal VNil, st1) else m_seq (ev sc tb) body VNil st1
           | (o, st1) => (o, st1)
           end
       | Cond cs => m_cond (ev sc tb) cs st
-      | Let inits body =>
+      | Let inits body =>                    (* processBinding stops at a marker and let returns it (C07-17) *)
           match m_args (ev sc tb) inits [] st with
-          | (inr _, st1) => m_seq (ev ((false, 0%N) :: sc) tb) is_marker body VNil st1
+          | (inr _, st1) => m_seq (ev ((false, 0%N) :: sc) tb) body VNil st1
           | (inl o, st1) => (o, st1)
           end
       | Block t body =>
-          match m_seq (ev ((true, t) :: sc) tb) is_ret body VNil st with
-          | (MVal (VRetM t' v), st1) => if N.eqb t t' then (MVal v, st1) else (MVal (VRetM t' v), st1)
-          | r => r
-          end
+          m_catch t (m_seq (ev ((true, t) :: sc) tb) body VNil st)
       | ReturnFrom t e =>
           if in_block sc t then
             match ev sc tb e st with
-            | (MVal v, st1) => (MVal (VRetM t v), st1)
+            | (MVal v, st1) => if is_marker v then (MVal v, st1) else (MVal (VRetM t v), st1)   (* C07-21 *)
             | (o, st1) => (o, st1)
             end
           else (MErr CControl, st)
       | Return e =>
           if in_block sc 0%N then
             match ev sc tb e st with
-            | (MVal v, st1) => (MVal (VRetM 0%N v), st1)
+            | (MVal v, st1) => if is_marker v then (MVal v, st1) else (MVal (VRetM 0%N v), st1)
             | (o, st1) => (o, st1)
             end
           else (MErr CControl, st)
       | Tagbody items =>
-          match m_items (ev ((false, 0%N) :: sc) true) true onret_none None items st with
+          match m_tagbody (ev ((false, 0%N) :: sc) true) onret_pass items n items st with
           | (Some r, st1) => (r, st1)
           | (None, st1) => (MVal VNil, st1)
           end
@@ -290,56 +316,68 @@ Section M.
           | (MHang, st1) => (MHang, st1)
           | (MOOF, st1) => (MOOF, st1)
           | (r, st1) =>                   (* the deferred function: runs for a value and for a panic alike *)
-              match m_seq (ev sc tb) never cs VNil (log (ECleanup u) st1) with
-              | (MVal _, st2) => (r, st2)            (* cleanup values are dropped, markers included *)
+              match m_seq (ev sc tb) cs VNil (log (ECleanup u) st1) with
+              | (MVal v, st2) =>
+                  if is_marker v then (MVal v, st2)  (* an exit out of a cleanup form replaces whatever was in flight (C07-20: recover() + result = tr) *)
+                  else (r, st2)                       (* other cleanup values are dropped *)
               | (r2, st2) => (r2, st2)               (* a panic in the cleanup replaces whatever was in flight *)
               end
           end
       | IgnoreErrors body =>
-          match m_seq (ev sc tb) never body VNil st with
+          match m_seq (ev sc tb) body VNil st with
           | (MErr _, st1) => (MVal VNilVals, st1)    (* result = slip.Values{nil, condition} *)
           | r => r
           end
       | Recover h body =>
-          match m_seq (ev sc tb) never body VNil st with
+          match m_seq (ev sc tb) body VNil st with
           | (MErr _, st1) => ev ((false, 0%N) :: sc) tb h st1
           | r => r
           end
       | WithMutex m body =>
           if N.testbit (locks st) m then (MHang, st) else
-          match m_seq (ev sc tb) never body VNil (lock m st) with
+          match m_seq (ev sc tb) body VNil (lock m st) with
           | (MHang, st1) => (MHang, st1)
           | (MOOF, st1) => (MOOF, st1)
           | (r, st1) => (r, unlock m st1)
           end
       | WithFile f body =>
-          match m_seq (ev ((false, 0%N) :: sc) tb) never body VNil (fopen f st) with
+          match m_seq (ev ((false, 0%N) :: sc) tb) body VNil (fopen f st) with
           | (MHang, st1) => (MHang, st1)
           | (MOOF, st1) => (MOOF, st1)
           | (r, st1) => (r, fclose f st1)
           end
       | Loop _ cnt body res =>
           let sc' := (true, 0%N) :: sc in
-          match m_iter (ev sc' true) onret_loop cnt body st with
+          match m_iter (ev sc' true) onret_loop n cnt body st with
           | (Some r, st1) => (r, st1)
-          | (None, st1) => ev sc' true res st1
+          | (None, st1) => m_catch 0%N (ev sc' true res st1)
           end
       | Do cnt body res =>
           let sc' := (true, 0%N) :: sc in
-          match m_iter (ev sc' true) (onret_do (head_block sc)) cnt body st with
+          match m_iter (ev sc' true) onret_loop n cnt body st with
           | (Some r, st1) => (r, st1)
-          | (None, st1) => m_seq (ev sc' true) never res VNil st1
+          | (None, st1) => m_catch 0%N (m_seq (ev sc' true) res VNil st1)
           end
-      | Lam body =>                         (* Lambda.Call: ss.Block = true, ss.Name = "lambda"; BoundCall *)
-          m_seq (ev ((true, LAMBDA) :: sc) tb) is_ret body VNil st
+      | Lam body =>                         (* Lambda.Call: ss.Block = true, ss.Name = "lambda"; BoundCall never unwraps for that name *)
+          m_seq (ev ((true, LAMBDA) :: sc) tb) body VNil st
       | CallU i =>
           match nth_error defs i with
           | None => (MErr CUndefFn, st)
-          | Some body =>
-              match m_seq (ev ((true, fn_tag i) :: sc) tb) is_ret body VNil st with
-              | (MVal (VRetM t' v), st1) => if N.eqb t' (fn_tag i) then (MVal v, st1) else (MVal (VRetM t' v), st1)
-              | r => r
-              end
+          | Some body => m_catch (fn_tag i) (m_seq (ev ((true, fn_tag i) :: sc) tb) body VNil st)
+          end
+      | Unless c body =>
+          match ev sc tb c st with
+          | (MVal v, st1) =>
+              if is_marker v then (MVal v, st1)
+              else if is_nil (prim v) then m_seq (ev sc tb) body VNil st1 else (MVal VNil, st1)
+          | (o, st1) => (o, st1)
+          end
+      | If c a b =>                          (* if.go: a marker in the test is returned (C07-18); the value of the branch is returned as it is *)
+          match ev sc tb c st with
+          | (MVal v, st1) =>
+              if is_marker v then (MVal v, st1)
+              else if is_nil (prim v) then ev sc tb b st1 else ev sc tb a st1
+          | (o, st1) => (o, st1)
           end
       end
     end.
